@@ -2,7 +2,7 @@ SPECIFICATION SpecAll
 CONSTANTS
   MaxBlocks = 4
   MaxAnn = 2
-  Anns <- MAnnsBig
+  Anns <- MAnns
   Depth = 7
   Record = FALSE
 INVARIANTS TypeOK SetIdCounts OneForcedPerFork AppliedWhenEffective NoPendingOnAbandoned NoLoss PendingNotOverdue UniqueApplicable SetIdAtMonotone
